@@ -197,23 +197,15 @@ def blocks(tier):
         spaces.v4_blocks("quick", "override", ("min", "min"))[1:]
 
 
-def run(ctx, res):
+def build_sets(thorough):
     global _VECS, _TOKS
-    # (1) round trip
-    blocks_ = blocks(ctx.tier)
-    tot = sweep.merge(product.run(ctx, blocks_, visit, sweep.new_acc))
-    sweep.fill(res, ctx, tot, blocks_,
-               "(1) every point of the listed blocks: rh_vector() text == '%.1f'%base + '/' + "
-               "clean_vector(), from_rh_vector(rh_vector()) == x with the same scores.",
-               exhaustive=True)
-    # (2) acceptance
     v2all = [(f, d) for f, d in spaces.v2_base_all()]
     v3all = [(T.PREFIX[fam] + f, d, fam) for fam in ("3.0", "3.1") for f, d in spaces.v3_base_all()]
     v4parts = spaces.v4_blocks("quick", "short", ("mid", "mid"))
     v4all = []
     for b in v4parts:
-        for fa, da in b.A[::2 if not ctx.thorough else 1]:
-            for fb, db in b.B[::5 if not ctx.thorough else 1]:
+        for fa, da in b.A[::2 if not thorough else 1]:
+            for fb, db in b.B[::5 if not thorough else 1]:
                 for fc, dc in b.C[::3]:
                     d = dict(da)
                     d.update(db)
@@ -229,22 +221,35 @@ def run(ctx, res):
               "CVSS:4.0/SA:L/SI:L/SC:L/VA:L/VI:L/VC:L/UI:N/PR:N/AT:N/AC:L/AV:N"]
     odd = ODD_NUM + PADDED + NOTNUM + FUZZY
     _TOKS = {"canon": CANON, "all": CANON + odd}
-    v4cover = score_cover("4.0", v4all, 12 if ctx.thorough else 4)
+    v4cover = score_cover("4.0", v4all, 12 if thorough else 4)
     _VECS = {
         (2, "canon"): [f for f, d in v2all],
-        (3, "canon"): [v for v, d, fam in v3all] if ctx.thorough else
+        (3, "canon"): [v for v, d, fam in v3all] if thorough else
         [v for v, d, fam in v3all if fam == "3.1"] + [v for v, d, fam in v3all if fam == "3.0"][::4],
-        (4, "canon"): v4cover if not ctx.thorough else [v for v, d in v4all],
+        (4, "canon"): v4cover if not thorough else [v for v, d in v4all],
         (2, "all"): score_cover("2", v2all, 1) + extra2 + INVALID[2],
         (3, "all"): score_cover("3.0", [(v, d) for v, d, fam in v3all if fam == "3.0"], 1) +
         score_cover("3.1", [(v, d) for v, d, fam in v3all if fam == "3.1"], 1) + extra3 + INVALID[3],
         (4, "all"): score_cover("4.0", v4all, 1) + extra4 + INVALID[4],
     }
+
+
+def run(ctx, res):
+    global _VECS, _TOKS
+    # (1) round trip
+    blocks_ = blocks(ctx.tier)
+    tot = sweep.merge(product.run(ctx, blocks_, visit, sweep.new_acc))
+    sweep.fill(res, ctx, tot, blocks_,
+               "(1) every point of the listed blocks: rh_vector() text == '%.1f'%base + '/' + "
+               "clean_vector(), from_rh_vector(rh_vector()) == x with the same scores.",
+               exhaustive=True)
+    # (2) acceptance
+    build_sets(ctx.thorough)
     tasks = []
     for (major, key), vecs in sorted(_VECS.items()):
         for lo, hi in core.split_range(len(vecs), 32):
             tasks.append((major, lo, hi, key))
-    accs = core.pool_map(_acc_task, tasks)
+    accs = core.task_map(_acc_task, tasks)
     tot2 = sweep.merge(accs)
     # strings without any '/'
     noslash = sweep.new_acc()
@@ -286,7 +291,9 @@ def run(ctx, res):
 
 def replay_task(case):
     if case["kind"] != "roundtrip":
-        return replay(case)
+        if not isinstance(case.get("task"), dict):
+            return replay(case)
+        return core.replay_func_task(case, lambda c: build_sets((c.get("tier") or "quick") == "thorough"))
     return product.replay_task(blocks(case.get("tier") or "quick"), visit, sweep.new_acc, case)
 
 
